@@ -45,6 +45,9 @@ def generate(run_seed, tier):
         # swarm: drop a random subset of op families for this session
         rw.shuffle(fams)
         fams = fams[: rw.randint(6, len(fams))]
+        if rw.random() < 0.5:
+            # wider operator coverage (where/mask, loc, nlargest, accessors, melt, combine_first, ...)
+            fams += rw.sample(list(W.EXTENDED_FAMILIES), rw.randint(2, len(W.EXTENDED_FAMILIES)))
         fuse = rw.random() < 0.6
         refw = reference_world()
 
